@@ -23,7 +23,7 @@ func init() {
 	register(&Rule{ID: "TAB-02", Title: "frame header: type byte, zero reserved bytes, LE32 length/CRC by type; type values; zero header = stop",
 		Props: []string{"C09", "C02", "C11"}, Floor: 8, Run: runTAB02})
 	register(&Rule{ID: "TAB-03", Title: "index frame: LE32 entries with stride 4 from the frame payload start; IndexStart producers add the frame header length",
-		Props: []string{"C09"}, Floor: 5, Run: runTAB03})
+		Props: []string{"C09", "C02"}, Floor: 5, Run: runTAB03})
 	register(&Rule{ID: "TAB-04", Title: "format constants equal the documented values (lengths, limits, names, JSON fields, CRC polynomial, codec ids)",
 		Props: []string{"C09", "C12"}, Floor: 12, Run: runTAB04})
 	register(&Rule{ID: "TAB-05", Title: "codec: Encode and Decode handle the same raft.Log fields in the same order with paired primitives",
@@ -552,6 +552,107 @@ func exprHasConst(v ssa.Value, want int64, depth int) bool {
 	return false
 }
 
+// sealOffsetOK: is v an acceptable value for the seal offset?  0, a copy of the seal offset field, an expression
+// that adds the frame header length, or a value read back from a variable / struct field every store to which is
+// itself acceptable (saved copies for a rollback, a per-commit record built during recovery).
+func sealOffsetOK(p *Prog, a *writerAnchors, v ssa.Value, fhl int64, depth int, seen map[ssa.Value]bool) bool {
+	if depth > 5 || v == nil || seen[v] {
+		return depth <= 5 && seen[v]
+	}
+	seen[v] = true
+	if c, ok := v.(*ssa.Const); ok {
+		return c.Value == nil || c.Int64() == 0
+	}
+	if exprHasConst(v, fhl, 0) || loadedField(v) == a.indexStart {
+		return true
+	}
+	storesTo := func(match func(addr ssa.Value) bool) (vals []ssa.Value, n int) {
+		for _, fn := range p.Funcs {
+			for _, b := range fn.Blocks {
+				for _, ins := range b.Instrs {
+					if st, ok := ins.(*ssa.Store); ok && match(st.Addr) {
+						vals = append(vals, st.Val)
+						n++
+					}
+				}
+			}
+		}
+		return
+	}
+	allOK := func(vals []ssa.Value) bool {
+		for _, x := range vals {
+			if !sealOffsetOK(p, a, x, fhl, depth+1, seen) {
+				return false
+			}
+		}
+		return true
+	}
+	switch x := v.(type) {
+	case *ssa.Phi:
+		return allOK(x.Edges)
+	case *ssa.Convert:
+		return sealOffsetOK(p, a, x.X, fhl, depth+1, seen)
+	case *ssa.Field:
+		if f := fieldOfAddr(x); f != nil {
+			vals, n := storesTo(func(addr ssa.Value) bool { return fieldOfAddr(addr) == f })
+			return n > 0 && allOK(vals)
+		}
+	case *ssa.UnOp:
+		if x.Op != token.MUL {
+			return false
+		}
+		if f := fieldOfAddr(x.X); f != nil {
+			vals, n := storesTo(func(addr ssa.Value) bool { return fieldOfAddr(addr) == f })
+			return n > 0 && allOK(vals)
+		}
+		// a local variable, possibly shared with closures
+		cell := rootCell(x.X)
+		if cell == nil {
+			return false
+		}
+		vals, n := storesTo(func(addr ssa.Value) bool { return rootCell(addr) == cell })
+		return n > 0 && allOK(vals)
+	}
+	return false
+}
+
+// rootCell resolves a local variable's address (an Alloc, or a closure's free variable bound to one) to the Alloc.
+func rootCell(addr ssa.Value) *ssa.Alloc {
+	for i := 0; i < 4; i++ {
+		switch x := addr.(type) {
+		case *ssa.Alloc:
+			return x
+		case *ssa.FreeVar:
+			cl := x.Parent()
+			par := cl.Parent()
+			if par == nil {
+				return nil
+			}
+			idx := -1
+			for j, fv := range cl.FreeVars {
+				if fv == x {
+					idx = j
+				}
+			}
+			var next ssa.Value
+			for _, b := range par.Blocks {
+				for _, ins := range b.Instrs {
+					if mc, ok := ins.(*ssa.MakeClosure); ok && mc.Fn == ssa.Value(cl) && idx >= 0 && idx < len(mc.Bindings) {
+						next = mc.Bindings[idx]
+					}
+				}
+			}
+			if next == nil {
+				return nil
+			}
+			addr = next
+		default:
+			return nil
+		}
+	}
+	return nil
+}
+
 // strideOf decodes the lower bound of a destination slice inside a counted loop:
 // returns (start, stride) for `buf[cursor:]` with cursor = phi(c0, cursor+k), or for `base[i*k : ...]` with base = buf[c0:...].
 func strideOf(sl *ssa.Slice) (int64, int64, bool) {
@@ -768,11 +869,11 @@ func runTAB03(p *Prog, r *RuleRun) {
 				if c, ok := st.Val.(*ssa.Const); ok && c.Int64() == 0 {
 					continue // reset
 				}
-				if u, ok := st.Val.(*ssa.UnOp); ok && u.Op == token.MUL {
-					continue // restore of a saved value
+				if loadedField(st.Val) == a.indexStart {
+					continue // copy of the field itself
 				}
 				key := ord.next(funcDisplay(fn) + ":store(indexStart)")
-				r.Check(exprHasConst(st.Val, int64(fhl), 0), key, posOf(p, st), "seal offset = index frame offset + frameHeaderLen (points at the array, not the frame header)",
+				r.Check(sealOffsetOK(p, a, st.Val, int64(fhl), 0, map[ssa.Value]bool{}), key, posOf(p, st), "seal offset = index frame offset + frameHeaderLen (points at the array, not the frame header)",
 					"a producer of the seal offset does not add the frame header length: the persisted IndexStart would address the frame header instead of the offset array, and the two producers (seal, recovery) would disagree")
 			}
 		}
@@ -1139,6 +1240,46 @@ func runTAB08(p *Prog, r *RuleRun) {
 		return true
 	})
 	spos, gpos := p.Position(set.Pos()), p.Position(get.Pos())
+	// the encoding may live in a small helper of SetUint64: look at the SSA of what it reaches in this package
+	arr8ssa := false
+	if put == nil {
+		if sfn := p.Func("", "WAL.SetUint64"); sfn != nil {
+			for fn := range p.reachableFuncs(sfn) {
+				if pkgRelOf(p, fn) != "" {
+					continue
+				}
+				for _, b := range fn.Blocks {
+					for _, ins := range b.Instrs {
+						c, ok := ins.(*ssa.Call)
+						if !ok {
+							continue
+						}
+						n := eventName(c)
+						if !strings.HasPrefix(n, "binary.") || !strings.Contains(n, ".PutUint") {
+							continue
+						}
+						o := layoutOp{Kind: "put", Order: "BigEndian", Pos: c.Pos()}
+						if strings.Contains(n, "littleEndian") {
+							o.Order = "LittleEndian"
+						}
+						if strings.HasSuffix(n, "PutUint64") {
+							o.Width = 64
+						}
+						put = &o
+						if sl, ok := c.Call.Args[len(c.Call.Args)-2].(*ssa.Slice); ok {
+							t := sl.X.Type()
+							if pt, ok := t.Underlying().(*types.Pointer); ok {
+								t = pt.Elem()
+							}
+							if at, ok := t.Underlying().(*types.Array); ok && at.Len() == 8 {
+								arr8ssa = true
+							}
+						}
+					}
+				}
+			}
+		}
+	}
 	r.Check(put != nil && put.Width == 64 && put.Order == "LittleEndian", "set:encoding", spos, "SetUint64 stores 8 little-endian bytes", fmt.Sprintf("SetUint64 encodes with %v; values written by the pinned version are 8-byte little-endian", put))
 	r.Check(gt != nil && gt.Width == 64 && gt.Order == "LittleEndian", "get:encoding", gpos, "GetUint64 decodes 8 little-endian bytes", fmt.Sprintf("GetUint64 decodes with %v: it no longer reads back what SetUint64 wrote", gt))
 	// buffer is [8]byte
@@ -1153,7 +1294,7 @@ func runTAB08(p *Prog, r *RuleRun) {
 		}
 		return true
 	})
-	r.Check(arr8, "set:width", spos, "the encoded value is exactly 8 bytes", "SetUint64's buffer is not [8]byte")
+	r.Check(arr8 || arr8ssa, "set:width", spos, "the encoded value is exactly 8 bytes", "SetUint64's buffer is not [8]byte")
 	// length checks: GetUint64's CFG is evaluated for each length of the stored value
 	zero, eight := false, false
 	if gfn := p.Func("", "WAL.GetUint64"); gfn != nil {
